@@ -19,12 +19,35 @@ def parseSyms (s : String) : Option (List Char) :=
   | '=' :: cs => some cs
   | _ => none
 
+/-- column descriptor: a table name, or `cg=<fund>~<amb>…` / `cn=<fund>~<amb>…` (custom alphabet with / without gap and
+    missing-data states; every `<amb>` is the symbol followed by its member symbols) -/
+def parseCol (s : String) : Option ColAlph :=
+  let custom (gm : Bool) (body : String) : Option ColAlph :=
+    match body.splitOn "~" with
+    | [] => none
+    | fund :: ambs =>
+      if fund.isEmpty then none else
+      match ambs.mapM (fun a => match a.toList with | c :: ms => some (c, ms) | [] => none) with
+      | some amb => some (.custom gm fund.toList amb)
+      | none => none
+  if s.startsWith "cg=" then custom true (s.drop 3).toString
+  else if s.startsWith "cn=" then custom false (s.drop 3).toString
+  else some (.table s)
+
+/-- alphabet field: `<table name>` (all columns) or `cols:<col>;<col>;…` (one descriptor per column) -/
+def rowOf (alph : String) (g : Bool) (cs : List Char) : Option Row :=
+  if alph.startsWith "cols:" then
+    match ((alph.drop 5).toString.splitOn ";").mapM parseCol with
+    | some cols => rowOfCols cols g cs
+    | none => none
+  else rowOfSymbols alph g cs
+
 def parseRows (alph : String) (g : Bool) : List String → Option Matrix
   | [] => some []
   | bit :: syms :: rest =>
     match bit.toNat?, parseSyms syms with
     | some b, some cs =>
-      match rowOfSymbols alph g cs, parseRows alph g rest with
+      match rowOf alph g cs, parseRows alph g rest with
       | some row, some m => some ((b, row) :: m)
       | _, _ => none
     | _, _ => none
@@ -76,7 +99,7 @@ def handle (ws : List String) : String :=
   | ["sets", alph, g, syms] =>
     match parseFlag g, parseSyms syms with
     | some g, some cs =>
-      match rowOfSymbols alph g cs with
+      match rowOf alph g cs with
       | some row => if row.isEmpty then "-" else natList row
       | none => "bad-symbol"
     | _, _ => "bad-op"
